@@ -203,6 +203,33 @@ def run(ctx):
             progs.append({"src": f"top := 7\n.macro rec(n) {{\n.if n {{\nrec(n - 1)\n}} else {{\n.db top\n}}\n}}\nrec({depth})\n", "rom": "low_rom", "files": {}, "bins": {}, "hist": {}})
             progs.append({"src": "top = 7\n" + "".join(f".scope s{i} {{\n" for i in range(depth)) + "lda.w top\n" + "}\n" * depth, "rom": "low_rom", "files": {}, "bins": {}, "hist": {}})
             progs.append({"src": "top := 3\n" + "".join(f".for i{i} := 0, 1 {{\n" for i in range(depth)) + ".db top\n" + "}\n" * depth, "rom": "low_rom", "files": {}, "bins": {}, "hist": {}})
+        # output through the real IPS writer of programs whose blocks end at, start at or cross the offset that reads as "EOF"
+        # (reachable through a user .map or an included record): an output or a refusal, never a hang
+        import io as _io
+        from a816.program import Program as _P
+        from a816.writers import IPSWriter as _W
+        for k in range(10 if tier == "quick" else 60):
+            n = rng.randrange(1, 40)
+            start = 0x454F46 - rng.choice([n, n - 1, n + 1, 1, 0, n // 2, 16, 0x200 + n, 0x200 + n - 1, 0x1FF])
+            copier = k % 3 == 0
+            wsrc = (".map identifier=1 bank_range=0x00,0xbf addr_range=0x8000,0xffff mask=0x8000\n"
+                    f"*=0x{((start // 0x8000) << 16) | (0x8000 + start % 0x8000):06x}\n.db " + ", ".join(str(rng.randrange(256)) for _ in range(n)) + "\n")
+            try:
+                with impl.quiet(), core.watchdog(10):
+                    w_ = _W(_io.BytesIO(), copier)
+                    w_.begin()
+                    try:
+                        _P().assemble_string_with_emitter(wsrc, "w.s", w_)
+                        w_.end()
+                    except Exception:  # noqa: BLE001
+                        pass
+                s3.cases += 1
+                s3.count("ips-writer-near-EOF-offset")
+            except core.Timeout:
+                s3.cases += 1
+                s3.violate({"src": wsrc, "output": "IPSWriter" + (" with copier header" if copier else "")}, "an output or a reported error", "no result within 10 s",
+                           "writing the assembled blocks as an IPS patch does not terminate")
+                break
         # included patch files that stop anywhere (no EOF marker, inside a record header, inside EO…)
         full = b"PATCH" + b"\x00\x00\x10\x00\x02\xaa\xbb" + b"\x00\x00\x20\x00\x00\x00\x03\xcc" + b"EOF"
         for cut in sorted(set([0, 3, 5, 6, 8, 10, 12, 14, 17, 20, len(full) - 2, len(full) - 1, len(full)] + [rng.randrange(len(full)) for _ in range(4)])):
